@@ -137,10 +137,10 @@ def check_stream(sources, M, case):
     with probe.observing(ids=True) as obs:
         for n, src in enumerate(sources):
             before = len(obs.ids)
-            st, envs, _, _ = observe.enum_observed(src, uri="s%d" % n, events=ge)
+            st, envs, opened_, _ = observe.enum_observed(src, uri="s%d" % n, events=ge)
             if st != "ok":
-                if envs.get("origin", "").endswith("_interpolate") or envs.get("origin", "").startswith("token_scanner"):
-                    return   # C01/C09 findings, not an id question
+                if src in opened_:
+                    return   # finding F1 (C01/C17), not an id question
                 M.violation("C11.stream_crash", {"what": "exception escaped GherkinEvents.enum", **envs}, case)
                 return
             solo_st, solo, _, _ = observe.enum_observed(src, uri="s%d" % n, options=opts)
